@@ -97,7 +97,58 @@ TWINS = [
 
 
 
-def header_stores(fnode):
+def _helper_keys(fnode, call, modtree):
+    """candidate keys produced by a module-level helper called with literal
+    arguments:  h(header, 1)  where h builds 'CDELT{0}'.format(axis)"""
+    if modtree is None or not isinstance(call, ast.Call) or \
+            not isinstance(call.func, ast.Name):
+        return []
+    h = [f for f in modtree.body if isinstance(f, ast.FunctionDef)
+         and f.name == call.func.id]
+    if len(h) != 1:
+        return []
+    h = h[0]
+    params = [a.arg for a in h.args.args]
+    bind = {p_: a.value for p_, a in zip(params, call.args)
+            if isinstance(a, ast.Constant)}
+    out = []
+    for x in ast.walk(h):
+        if isinstance(x, ast.Call) and isinstance(x.func, ast.Attribute) \
+                and x.func.attr == "format" and \
+                isinstance(x.func.value, ast.Constant) and \
+                isinstance(x.func.value.value, str):
+            vals = []
+            for a in x.args:
+                if isinstance(a, ast.Constant):
+                    vals.append(a.value)
+                elif isinstance(a, ast.Name) and a.id in bind:
+                    vals.append(bind[a.id])
+                else:
+                    vals = None
+                    break
+            if vals is not None:
+                try:
+                    out.append(x.func.value.value.format(*vals))
+                except (IndexError, KeyError, ValueError):
+                    pass
+        if isinstance(x, ast.JoinedStr):
+            parts = []
+            for v in x.values:
+                if isinstance(v, ast.Constant):
+                    parts.append(str(v.value))
+                elif isinstance(v, ast.FormattedValue) and isinstance(
+                        v.value, ast.Name) and v.value.id in bind and \
+                        v.format_spec is None:
+                    parts.append(str(bind[v.value.id]))
+                else:
+                    parts = None
+                    break
+            if parts is not None:
+                out.append("".join(parts))
+    return out
+
+
+def header_stores(fnode, modtree=None):
     """{key: [stmt]} for header['KEY'] = / op= ... ; a store through a key
     variable chosen among literal candidates (key = pick(header, 'A', 'B'))
     is recorded under every candidate"""
@@ -126,6 +177,7 @@ def header_stores(fnode):
             cands = [a.value for a in ast.walk(d.value)
                      if isinstance(a, ast.Constant) and
                      isinstance(a.value, str)]
+            cands += _helper_keys(fnode, d.value, modtree)
             for k in cands:
                 out.setdefault(k, []).append(s)
     return out
@@ -142,7 +194,7 @@ def run(ctx):
     ctx.rule("C15-R1", "BN_* keys: written by compress on every success "
              "path == required by is_compressed == read and deleted by "
              "expand")
-    cs = header_stores(comp.node)
+    cs = header_stores(comp.node, mod.tree)
     written = {k for k in cs if k.startswith("BN_")}
     def key_list(fnode, e):
         """string elements of a literal list / tuple, directly or through a
@@ -220,7 +272,7 @@ def run(ctx):
     ctx.rule("C15-R2", "expand's header rewrites invert compress's: CRPIXi "
              "maps compose to the identity; CDELTi/CDi_i scaled by *f then "
              "/f, same keys in the same if/elif order")
-    es = header_stores(exp.node)
+    es = header_stores(exp.node, mod.tree)
     f, c = sp.Symbol("f", positive=True), sp.Symbol("c", real=True)
     for key in ("CRPIX1", "CRPIX2"):
         if key not in cs or key not in es:
